@@ -356,6 +356,7 @@ func propC01() *PropSpec {
 			js = append(js, jobsN("js", "VerifJSExpr", []int{1}, "x=E; E of depth 1 (13 operators x 9 leaves), evaluator on symbolic values")...)
 			js = append(js, jobsN("js", "VerifJSStmts", pick([]int{1}, []int{1, 2}), "n statements out of 15 templates with leaf expressions")...)
 			js = append(js, jobsN("js", "VerifJSTail", pick([]int{1}, []int{1}), "n prefix statements + one tail statement (merging into return/throw/if)")...)
+			js = append(js, jobsN("js", "VerifJSReturnTail", pick([]int{2, 3}, []int{2, 3}), "n expression statements + return/throw tail")...)
 			js = append(js, jobsN("js", "VerifJSNested", pick([]int{0}, rng(0, 3)), "x=(C?X:Y) / (X&&Y) / (X||Y) / !(X??Y) with one operand of depth 1: grouping inside the rewrites")...)
 			js = append(js, Job{Pkg: "js", Fn: "VerifJSLitTwin", N: 0, ExpectFail: true, Desc: "vacuity twin (kernels)"})
 			js = append(js, Job{Pkg: "js", Fn: "VerifJSEvalTwin", N: 0, ExpectFail: true, Desc: "vacuity twin (evaluator)"})
